@@ -18,6 +18,14 @@ CLAIMED = {
             "byte-identical output as an observed fact nor determinism of dependencies.",
             "custom AST+types map-iteration order classifier, who-may-call over SSA call sites",
             "DESIGN.md §4 C08"),
+    "C03": ("Structural necessary conditions of 'every contact change is announced', decided on the SSA form: who may call "
+            "the contact's mutators (only modifiers, the owning types, session.SetInput); per Modifier.Apply a path-sensitive "
+            "typestate analysis (mutator results forked true/false, loops unrolled) proving mutated <=> returns true, "
+            "mutated => paired change event, no event without mutation; guard/store/event value agreement; the group "
+            "re-evaluation and contact-refresh pairs in the engine. Does not decide that replaying events reproduces "
+            "the contact value, nor value-level idempotence (e.g. URN 'set' with an equal list).",
+            "who-may-call + path-sensitive typestate dataflow over go/ssa (ESP-style), value-provenance comparison",
+            "DESIGN.md §4 C03"),
 }
 
 NOT_APPLICABLE = {}
